@@ -324,6 +324,25 @@ def _same(a, b):
     return float(a) == float(b)
 
 
+def _area_sweep(self, tier, seed):
+    from contracts.common import native_sweep, sorted_env
+
+    cases = [{"n": n, "m": m, "kinds": ("fin", "fin") * m, "labels": lab} for n in (15, 40) for m in (1, 3) for lab in ("flat", "per_index")]
+
+    def env(case, rng):
+        e = sorted_env("a", case["n"], rng, -20, 20)
+        pts = list(e.values())
+        for j in range(case["m"]):
+            for nm in (f"lo{j}", f"hi{j}"):
+                e[nm] = rng.choice(pts) if rng.random() < 0.5 else round(rng.uniform(-25, 25), 3)
+        return e
+
+    return native_sweep(self, cases, envs=env, tries=4, seed=seed)
+
+
+GetArea.bounded_checks = _area_sweep
+
+
 class ModelWeight(Contract):
     """DataProvider.add_model_weight: product of the weights whose intervals hold the cell."""
 
